@@ -97,10 +97,10 @@ func runProxy(seed uint64, n int, tier string, out string, replay string) {
 	defer origin.Close()
 
 	type locShape struct {
-		cfg     config.LocationConfig
-		reqH    []hline
-		respH   []hline
-		query   string
+		cfg   config.LocationConfig
+		reqH  []hline
+		respH []hline
+		query string
 	}
 	shapes := []locShape{
 		{cfg: config.LocationConfig{}},
